@@ -26,14 +26,20 @@ Definition w_ir : list bcmd :=
   [KOp 1 false 0 0 [] [] 1; KBlk 1 1 0 []; KOp 2 false 0 0 [] [] 0].
 Definition w_r0 : rw := {| flag := false; dip := IPBefore 2 |}.
 
-Lemma flag_sound_refuted :
+(* recorded refutation of the code before commit 5d0c2dd (cbflag = false) ... *)
+Lemma flag_sound_old_refuted :
   exists a, resolve (build w_ir) w_r0 (TCreateBlock 100 (BPAfter 1) []) = Some a /\
-            dump (apply cir_sem a (build w_ir) w_r0) <> dump (build w_ir) /\
-            sets_flag cir_sem a (build w_ir) w_r0 = false.
+            dump (apply cir_sem false a (build w_ir) w_r0) <> dump (build w_ir) /\
+            sets_flag cir_sem false a (build w_ir) w_r0 = false.
 Proof.
   eexists. split; [vm_compute; reflexivity|]. split; [|vm_compute; reflexivity].
   intro H. vm_compute in H. discriminate H.
 Qed.
+(* ... and the same call under the current code sets the flag *)
+Lemma flag_sound_witness_now :
+  exists a, resolve (build w_ir) w_r0 (TCreateBlock 100 (BPAfter 1) []) = Some a /\
+            sets_flag cir_sem true a (build w_ir) w_r0 = true.
+Proof. eexists. split; vm_compute; reflexivity. Qed.
 
 (* Witness 2: the same call inside a walk.  Op 1 acts once its region has two blocks; op 2 creates
    that block.  The walk visits 1 then 2, no flag is ever set: it returns False although the IR
@@ -55,16 +61,19 @@ Definition is_some {A} (o : option A) : bool := match o with Some _ => true | No
 Lemma some_spec {A} (o : option A) d : is_some o = true -> o = Some (match o with Some s => s | None => d end).
 Proof. destruct o; simpl; intros H; [reflexivity | discriminate]. Qed.
 
+Definition quiescent_old (recur : bool) (m : matcher cir_sem) (c : cir) (o : op) : Prop :=
+  forall w, fst (fst (fst (run_match cir_sem false recur m o c w))) = c /\
+            flag (snd (fst (fst (run_match cir_sem false recur m o c w)))) = false.
 Definition w_s1 : wstate cir_sem :=
-  final_of (rewrite_region cir_sem 5 50 w_cf (MSingle cir_sem (script w_tb_cb)) lifo (build w_ir)) (build w_ir).
+  final_of (rewrite_region cir_sem false 5 50 w_cf (MSingle cir_sem (script w_tb_cb)) lifo (build w_ir)) (build w_ir).
 
-Lemma walk_create_block_refuted :
+Lemma walk_create_block_old_refuted :
   let c := build w_ir in
   let m := MSingle cir_sem (script w_tb_cb) in
-  exists s, rewrite_region cir_sem 5 50 w_cf m lifo c = Some (s, false) /\
+  exists s, rewrite_region cir_sem false 5 50 w_cf m lifo c = Some (s, false) /\
             dump (ws_c s) <> dump c /\
             In 1 (walk cir_sem true true (ws_c s)) /\
-            ~ quiescent cir_sem true m (ws_c s) 1.
+            ~ quiescent_old true m (ws_c s) 1.
 Proof.
   cbv zeta. exists w_s1. split; [apply final_of_spec; vm_compute; reflexivity|]. split; [|split].
   - intro H. vm_compute in H. discriminate H.
@@ -83,39 +92,29 @@ Definition w_tb2 : table :=
     {| e_tag := 2; e_stage := 0; e_guards := []; e_steps := [TNotify 2] |} ].
 
 Definition w_s2 : wstate cir_sem :=
-  match one_pass cir_sem 50 w_cf (MSingle cir_sem (script w_tb2)) lifo (st0 (build w_ir2)) with
+  match one_pass cir_sem true 50 w_cf (MSingle cir_sem (script w_tb2)) lifo (st0 (build w_ir2)) with
   | Some s => s | None => st0 (build w_ir2) end.
 Definition w_s3 : wstate cir_sem :=
-  final_of (rewrite_region cir_sem 5 50 w_cf (MSingle cir_sem (script w_tb2)) lifo (build w_ir2)) (build w_ir2).
+  final_of (rewrite_region cir_sem true 5 50 w_cf (MSingle cir_sem (script w_tb2)) lifo (build w_ir2)) (build w_ir2).
 
 Lemma single_pass_refuted :
   let c := build w_ir2 in
   let m := MSingle cir_sem (script w_tb2) in
-  matcher_nocb cir_sem m /\
-  exists s, one_pass cir_sem 50 w_cf m lifo (st0 c) = Some s /\
+  exists s, one_pass cir_sem true 50 w_cf m lifo (st0 c) = Some s /\
             map fst (ws_inv s) = [1; 2; 2] /\
             In 1 (walk cir_sem true true (ws_c s)) /\
             ~ quiescent cir_sem true m (ws_c s) 1.
 Proof.
-  cbv zeta. split.
-  - simpl. intros c o f Hin c' r a Hf. unfold script in Hin.
-    destruct (find _ w_tb2) as [e|] eqn:Ef; [|contradiction].
-    assert (He : forall tm, In tm (e_steps e) -> exists t, tm = TNotify t).
-    { apply find_some in Ef. destruct Ef as [Hin' _]. simpl in Hin'.
-      destruct Hin' as [<-|[<-|[]]]; simpl; intros tm [<-|[]]; eauto. }
-    destruct (forallb _ (e_guards e)); [|contradiction].
-    apply in_app_or in Hin. destruct Hin as [Hin|[Hin|[]]]; [|discriminate Hin].
-    apply in_map_iff in Hin. destruct Hin as (tm & Heq & Htm). inversion Heq; subst f.
-    destruct (He tm Htm) as (t & ->). simpl in Hf. destruct (att_op c' t); inversion Hf; reflexivity.
-  - exists w_s2. split; [apply some_spec; vm_compute; reflexivity|]. split; [vm_compute; reflexivity|]. split.
-    + vm_compute. auto.
-    + intro Q. specialize (Q []). destruct Q as [_ Q]. vm_compute in Q. discriminate Q.
+  cbv zeta.
+  exists w_s2. split; [apply some_spec; vm_compute; reflexivity|]. split; [vm_compute; reflexivity|]. split.
+  - vm_compute. auto.
+  - intro Q. specialize (Q []). destruct Q as [_ Q]. vm_compute in Q. discriminate Q.
 Qed.
 
 (* ... and the complete driver does reach the fixpoint on that example (instance of Proofs.fixpoint,
    shown here by evaluation: 1, 2, 2 | 1, 1, 2 | 1, 2) *)
 Lemma single_pass_example_full_run :
-  exists s, rewrite_region cir_sem 5 50 w_cf (MSingle cir_sem (script w_tb2)) lifo (build w_ir2) = Some (s, true) /\
+  exists s, rewrite_region cir_sem true 5 50 w_cf (MSingle cir_sem (script w_tb2)) lifo (build w_ir2) = Some (s, true) /\
             map fst (ws_inv s) = [1; 2; 2; 1; 1; 2; 1; 2].
 Proof. exists w_s3. split; [apply final_of_spec|]; vm_compute; reflexivity. Qed.
 
@@ -129,10 +128,10 @@ Definition w_r1 : rw := {| flag := false; dip := IPBefore 1 |}.
 
 Lemma events_complete_refuted :
   exists a, resolve (build w_ir3) w_r1 (TInlineBlock 1 (IPBefore 1) [VRes 3 0]) = Some a /\
-            changed cir_sem (build w_ir3) (apply cir_sem a (build w_ir3) w_r1) 2 /\
+            changed cir_sem (build w_ir3) (apply cir_sem true a (build w_ir3) w_r1) 2 /\
             In 2 (alive cir_sem (build w_ir3)) /\
-            ~ covered cir_sem (snd (exec cir_sem a (build w_ir3) w_r1)) 2 /\
-            sets_flag cir_sem a (build w_ir3) w_r1 = true.
+            ~ covered cir_sem (snd (exec cir_sem true a (build w_ir3) w_r1)) 2 /\
+            sets_flag cir_sem true a (build w_ir3) w_r1 = true.
 Proof.
   eexists. split; [vm_compute; reflexivity|]. split; [|split; [|split]].
   - left. intro H. vm_compute in H. discriminate H.
@@ -159,7 +158,7 @@ Definition toy_sem : Sem :=
 Lemma toy_flag_laws : FlagLaws toy_sem.
 Proof. split; reflexivity. Qed.
 
-Lemma toy_live_laws : LiveLaws toy_sem (fun _ => True).
+Lemma toy_live_laws : LiveLaws toy_sem (fun _ => True) (fun _ _ => True).
 Proof.
   split; simpl; auto.
   - intros c v u _ [].
@@ -167,7 +166,7 @@ Proof.
     + apply in_or_app. auto.
     + apply filter_In. split; auto. apply negb_true_iff. apply Nat.eqb_neq. intros ->. apply Hk. auto.
   - intros c o x _ [<-|[]]. reflexivity.
-  - intros news ip c n Hn. apply in_or_app. right. apply in_map. exact Hn.
+  - intros news ip c n _ Hn. apply in_or_app. right. apply in_map. exact Hn.
 Qed.
 
 Lemma toy_ev_laws : EvLaws toy_sem.
@@ -191,8 +190,17 @@ Qed.
 (* a non-trivial run of the driver over the toy model: the pattern erases op 2 when invoked on op 1 *)
 Example toy_run :
   let p : pattern toy_sem := fun c o => if Nat.eqb o 1 then [PAct toy_sem (fun c _ => if existsb (Nat.eqb 2) c then Some (AErase 2) else None)] else [] in
-  match rewrite_region toy_sem 5 50 w_cf (MSingle toy_sem p) lifo [1; 2; 3] with
+  match rewrite_region toy_sem true 5 50 w_cf (MSingle toy_sem p) lifo [1; 2; 3] with
   | Some (s, ret) => (ws_c s, ret, map fst (ws_inv s)) = ([1; 3], true, [3; 2; 1; 3; 1])
   | None => False
   end.
 Proof. vm_compute. reflexivity. Qed.
+
+(* the create_block walk of Witness 2 under the current code: the flag is set, op 1 is re-visited by
+   the next pass, acts, and the walk returns True (visits 1, 2 | 1, 1, 2 | 1, 2) *)
+Definition w_s4 : wstate cir_sem :=
+  final_of (rewrite_region cir_sem true 5 50 w_cf (MSingle cir_sem (script w_tb_cb)) lifo (build w_ir)) (build w_ir).
+Lemma walk_create_block_now :
+  exists s, rewrite_region cir_sem true 5 50 w_cf (MSingle cir_sem (script w_tb_cb)) lifo (build w_ir) = Some (s, true) /\
+            map fst (ws_inv s) = [1; 2; 1; 1; 2; 1; 2].
+Proof. exists w_s4. split; [apply final_of_spec|]; vm_compute; reflexivity. Qed.
